@@ -796,7 +796,7 @@ func main() {
 	isChild := flag.Bool("child", false, "internal: run cases from stdin")
 	one := flag.String("case", "", "run a single case (the arguments after 'run') in-process and print it")
 	workers := flag.Int("workers", 12, "parallel child processes")
-	subset := flag.String("subset", "all", "all | rawcut (only the cut positions of the raw SASL response) | rawread (only the raw response reads)")
+	subset := flag.String("subset", "all", "all | rawcut (only the cut positions of the raw SASL response) | rawread (only the raw response reads) | nofault (only the fault-free runs)")
 	cutStride := flag.Int("cutstride", 6, "rawcut: silence ending at every n-th cut position")
 	flag.Int64Var(vlimitKB, "vlimit", 24000000, "address-space limit of the child processes, KB (ulimit -v)")
 	flag.Int("n", 0, "unused (the enumeration is exhaustive)")
@@ -821,6 +821,15 @@ func main() {
 	mainCases, side := enumerate(creds)
 	if *subset == "rawcut" {
 		mainCases, side = nil, enumerateCuts(*cutStride)
+	}
+	if *subset == "nofault" { // only the fault-free runs of the product (request framing per negotiated versions; hosted by C04 too)
+		var only []tcase
+		for _, c := range append(append([]tcase{}, mainCases...), side...) {
+			if c.fstep < 0 && c.op() == "run" {
+				only = append(only, c)
+			}
+		}
+		mainCases, side = nil, only
 	}
 	if *subset == "rawread" { // only the raw response reads (allocation measured per case; hosted by C20 too)
 		var only []tcase
